@@ -531,6 +531,7 @@ func genEBNF(t *rapid.T) *ref.SpecModel {
 	m.Decls = append(m.Decls, &ref.Decl{Kind: "rule", Name: "start", Semi: true, RHS: start})
 	for _, name := range others {
 		if used[name] {
+			operands = nil // the bodies of x and y use literals only: no operand of start (which may mention x or y) is reused
 			m.Decls = append(m.Decls, &ref.Decl{Kind: "rule", Name: name, Semi: true, RHS: rhs(2, nil)})
 		}
 	}
